@@ -250,3 +250,36 @@ Example src_study_runs :
   option_map (hd_error (A:=_)) (src_StudyTiling_generate_populated_positions (mkST 513 255 1024 4 2 255 384))
     = Some (Some (mkSP 2 0 1, 1, 128, 0, 0, 255, 128)).
 Proof. vm_compute. repeat split. Qed.
+
+(* ------------------------------------------------------------------ *)
+(* How an image reaches StudyTiling: Builder.prepare_study_tiling, execute_study_tiling and
+   tile_base_as_study (toasty/builder.py), tied by TRANSLATION (Generated/BuilderSrc.v, harness/py2coq.py
+   MethodTranslator, regenerated from /repo's working tree on every build): the tiling is built from
+   (image.width, image.height) in that order -- the arguments src_StudyTiling_init above takes --, it
+   is applied to the builder's own image set and it is the tiling returned; tiling writes into the
+   builder's own pyramid with the caller's keyword arguments.  Proofs in Proofs/BuilderSrcP.v. *)
+From Coq Require Import String.
+From Toasty Require Import Model.BuilderScript Generated.BuilderSrc Proofs.BuilderSrcP.
+Local Open Scope string_scope.
+Local Open Scope list_scope.
+
+Theorem src_builder_study_methods_are_model :
+  src_Builder_prepare_study_tiling = TDone builder_prepare_study_tiling_model /\
+  src_Builder_execute_study_tiling = TDone builder_execute_study_tiling_model /\
+  src_Builder_tile_base_as_study = TDone builder_tile_base_as_study_model.
+Proof. destruct src_builder_methods_eq as (_ & _ & H1 & H2 & H3). repeat split; assumption. Qed.
+Print Assumptions src_builder_study_methods_are_model.
+
+Theorem builder_study_tiling_plumbing :
+  builder_prepare_study_tiling_model =
+    [ SMethod (SNewP "StudyTiling" [SAttr "width" (SName "image"); SAttr "height" (SName "image")] [])
+              "apply_to_imageset" [SAttr "imgset" (SName "self")] [];
+      SCall "return" [SNewP "StudyTiling" [SAttr "width" (SName "image"); SAttr "height" (SName "image")] []] [] ] /\
+  builder_tile_base_as_study_model =
+    [ SMethod (SName "self") "_check_no_wcs_yet" [] [];
+      SCall "tile_study_image" [SName "image"; SAttr "pio" (SName "self")] [("**", SName "kwargs")];
+      SMethod (SNewP "tile_study_image" [SName "image"; SAttr "pio" (SName "self")] [("**", SName "kwargs")])
+              "apply_to_imageset" [SAttr "imgset" (SName "self")] [];
+      SCall "return" [SName "self"] [] ].
+Proof. split; [exact prepare_study_tiling_plumbing | exact tile_base_as_study_plumbing]. Qed.
+Print Assumptions builder_study_tiling_plumbing.
